@@ -33,9 +33,15 @@ import (
 // ArchiveLicenses takes all of the known license texts, normalizes them, then
 // calculates the hash values of all substrings. The resulting normalized text
 // and hashed substring values are then serialized into an archive file.
-func ArchiveLicenses(licenses []string, w io.Writer) error {
+func ArchiveLicenses(licenses []string, w io.Writer) (err error) {
 	gw := gzip.NewWriter(w)
-	defer gw.Close()
+	defer func() {
+		// Closing the compressor writes what it still buffers (for a small
+		// archive: everything). A failure there is a failure to write the archive.
+		if cerr := gw.Close(); err == nil {
+			err = cerr
+		}
+	}()
 
 	tw := tar.NewWriter(gw)
 	for _, license := range licenses {
